@@ -137,6 +137,7 @@ pub fn ffi_line(rng: &mut Rng, maxvars: usize, maxops: usize) -> String {
         // ---- through the C symbols
         let b = mk_bdd_manager_default_order(n as u64);
         let mut pool: Vec<H> = Vec::new();
+        let mut mc_now: Vec<u64> = Vec::new();
         for op in prog.ops.iter() {
             let h = match op {
                 Op::Const(v) => if *v { bdd_true(b) } else { bdd_false(b) },
@@ -150,6 +151,8 @@ pub fn ffi_line(rng: &mut Rng, maxvars: usize, maxops: usize) -> String {
                 _ => panic!("not a C operation"),
             };
             pool.push(h);
+            // the count over the variables the manager has at this moment
+            mc_now.push(robdd_model_count(b, h));
         }
         let cw: Vec<String> = pool.iter().map(|h| walk_c(*h, 0)).collect();
         let ceq: Vec<usize> = (0..pool.len()).map(|i| (0..=i).find(|&j| bdd_eq(b, pool[j], pool[i])).unwrap()).collect();
@@ -230,8 +233,8 @@ pub fn ffi_line(rng: &mut Rng, maxvars: usize, maxops: usize) -> String {
         let npoly = nlast.unsmoothed_wmc(&WmcParams::new(pm));
         let npc: Vec<f64> = npoly.coefficients[..npoly.len].iter().map(|c| c.0).collect();
         format!(
-            "cw={} ceq={} cmc={} cnodes={} cconst={} wback={} cr={} cc={},{} cp={} lplen={} json={} nw={} neq={} nmc={} nr={} nc={},{} np={} nvars={}",
-            cw.join("|"), csv(&ceq), csv(&cmc), csv(&cnodes), cconst, wback, cr,
+            "mcnow={} cw={} ceq={} cmc={} cnodes={} cconst={} wback={} cr={} cc={},{} cp={} lplen={} json={} nw={} neq={} nmc={} nr={} nc={},{} np={} nvars={}",
+            csv(&mc_now), cw.join("|"), csv(&ceq), csv(&cmc), csv(&cnodes), cconst, wback, cr,
             f64_exact(cc.re), f64_exact(cc.im), cp, lplen, js.replace(' ', ""),
             nw.join("|"), csv(&neq), csv(&nmc), nr, f64_exact(ncx.re), f64_exact(ncx.im),
             poly_str(npoly.len, &npc), nv
